@@ -296,7 +296,9 @@ func init() {
 			d.Do(Ev{"op": "date.bin", "a": []int{y, m, dd}})
 			d.S.Boundary()
 		}
-		yb := func(y int) []byte { return []byte{byte(uint32(y) >> 24), byte(uint32(y) >> 16), byte(uint32(y) >> 8), byte(uint32(y))} }
+		yb := func(y int) []byte {
+			return []byte{byte(uint32(y) >> 24), byte(uint32(y) >> 16), byte(uint32(y) >> 8), byte(uint32(y))}
+		}
 		// (1) encode + round trip: all dates of a year range, boundary years, sampled huge years
 		y0, y1 := 1990, 2030
 		if d.Thorough() {
